@@ -640,13 +640,18 @@ pub fn update_msk(
 }
 
 /// Generates a new secret for each right in the given set that belongs to the MSK.
+///
+/// The MSK is left unchanged upon error.
 pub fn rekey(
     rng: &mut impl CryptoRngCore,
     msk: &mut MasterSecretKey,
     rights: HashSet<Right>,
 ) -> Result<(), Error> {
-    for r in rights {
-        if msk.secrets.contains_key(&r) {
+    // Generate all new secrets before modifying the MSK, so that a failure does
+    // not leave it partially re-keyed.
+    let new_secrets = rights
+        .into_iter()
+        .map(|r| {
             // The new secret inherits both the hybridization and the
             // activation status of the secret it replaces: re-keying a
             // deactivated right must not publish it again.
@@ -655,18 +660,19 @@ pub fn rekey(
                 .get_latest(&r)
                 .map(|(is_activated, k)| (*is_activated, k.is_hybridized()))
                 .ok_or_else(|| {
-                    Error::OperationNotPermitted(format!("no current key for coordinate {r:#?}"))
+                    Error::OperationNotPermitted(
+                        "cannot re-key a right not belonging to the MSK".to_string(),
+                    )
                 })?;
-
-            msk.secrets.insert(
+            Ok((
                 r,
                 (is_activated, RightSecretKey::random(rng, is_hybridized)?),
-            );
-        } else {
-            return Err(Error::OperationNotPermitted(
-                "cannot re-key a right not belonging to the MSK".to_string(),
-            ));
-        }
+            ))
+        })
+        .collect::<Result<Vec<_>, Error>>()?;
+
+    for (r, secret) in new_secrets {
+        msk.secrets.insert(r, secret);
     }
     Ok(())
 }
